@@ -1929,8 +1929,9 @@ func (mgr *Manager) removeConverter(path string) error {
 		}
 	}
 
-	// Stop the process if it is running and delete the cache file.
-	if err := converter.Reset(); err != nil {
+	// Stop the process if it is running and delete the cache file: a converter job that is still running
+	// keeps using this cache, a converter that is added under the same name must not share the file with it.
+	if err := converter.Remove(); err != nil {
 		return err
 	}
 	mgr.converterOutputDropped()
